@@ -4,7 +4,11 @@ memory layout and thread count; malformed arguments raise.
 The real code runs in a separate worker process (this same file with --worker): a crash of the
 compiled kernels is then an observation (-> VIOLATION), not a harness failure.
 """
+import ast
+import hashlib
 import math
+import os
+import re
 from fractions import Fraction
 
 RULE = ('systematic sweep kernel x element type (all members of the fused lists + bool/S1) x X layout '
@@ -32,11 +36,11 @@ ASSUMPTIONS = [
 ]
 TRUSTED_EXTRA = ['Cython/gcc/libgomp compile the nogil prange bodies as written (the model is of the .pyx source; '
                  'the runs and, in the thorough tier, valgrind memcheck sample the compiled object)']
-import ast
-import hashlib
-import os
-import re
 
+
+# ----------------------------------------------------------------------------------------
+# translator: libdist.pyx / cluster/util.py -> lean/Model/Generated/FusedTypes.lean
+# ----------------------------------------------------------------------------------------
 
 def _parse_libdist(src):
     """Extract the fused type lists, the typed-buffer signatures of the three kernels, the
@@ -1167,15 +1171,21 @@ def run(ctx):
     mresults, mcrash, _ = run_worker(malformed)
     # model
     reqs = [model_request(sp) for sp in valid] + [malformed_model_request(sp) for sp in malformed] + \
-        [{'op': 'C13.metric', 'metric': s['metric']} for s in metric_specs]
+        [{'op': 'C13.metric', 'metric': s['metric']} for s in metric_specs] + [{'op': 'C13.arith'}]
     resp = ctx.driver(reqs)
+    ctx.note('model_integer_arithmetic', resp.pop().get('ok'))
     mv, mm, mmet = resp[:len(valid)], resp[len(valid):len(valid) + len(malformed)], resp[len(valid) + len(malformed):]
-    for sp, wr, mr in zip(valid, results[:len(valid)], mv):
+    crash_idx = crash['case_index'] if crash is not None else None
+    for k, (sp, wr, mr) in enumerate(zip(valid, results[:len(valid)], mv)):
+        if wr is None and crash_idx is not None and k != crash_idx:
+            ctx.skip('valid case not reached after an earlier crash of the kernel process')
+            continue
         check_valid(ctx, sp, wr, mr)
-    if crash is not None and all(r is not None for r in results[:len(valid)]):
-        pass   # attributed below (big / auxiliary part)
     off = len(valid)
-    for sp, wr in zip(bigs, results[off:off + len(bigs)]):
+    for k, (sp, wr) in enumerate(zip(bigs, results[off:off + len(bigs)])):
+        if wr is None and crash_idx is not None and off + k != crash_idx:
+            ctx.skip('large case not reached after an earlier crash of the kernel process')
+            continue
         check_big(ctx, sp, wr)
     off += len(bigs)
     for sp, wr, mr in zip(metric_specs, results[off:off + len(metric_specs)], mmet):
@@ -1195,11 +1205,13 @@ def run(ctx):
     off += len(metric_specs)
     tinfo = [r.get('info') for r in results[off:] if r]
     ctx.note('openmp_thread_limits_observed', tinfo)
-    for sp, wr, mr in zip(malformed, mresults, mm):
-        if wr is None and mcrash is not None and mcrash['case_index'] != malformed.index(sp):
+    for k, (sp, wr, mr) in enumerate(zip(malformed, mresults, mm)):
+        if wr is None and mcrash is not None and mcrash['case_index'] != k:
             ctx.skip('malformed case not reached after an earlier crash')
             continue
         check_malformed(ctx, sp, wr, mr)
+    if crash is not None or mcrash is not None:
+        ctx.note('kernel_process_crash', {'valid_stream': crash, 'malformed_stream': mcrash})
     if ctx.thorough and not ctx.escalated:
         sub = [sp for sp in valid if sp['tags']['n'] <= 12][:60] + malformed[:40]
         sub = [dict(sp, threads=min(sp.get('threads', 1), 4)) for sp in sub]
